@@ -217,12 +217,13 @@ type pcase struct {
 	seen     int
 }
 
-func newPCase(cd *chainData) *pcase {
+func newPCase(cd *chainData, discard bool) *pcase {
 	p := &pcase{cd: cd, genDoc: mkGenDoc(cd.ih)}
 	p.app = &recApp{valKey: chainPriv.PubKey()}
 	p.app.tick = p.tick
 	sdb := midDB{DB: dbm.NewMemDB(), p: p}
-	p.inner = sm.NewStore(sdb, sm.StoreOptions{})
+	// storage.discard_abci_responses: per-height responses are not kept, the last one always is
+	p.inner = sm.NewStore(sdb, sm.StoreOptions{DiscardABCIResponses: discard})
 	p.stateStore = crashStore{Store: p.inner, tick: p.tickStore}
 	p.blockStore = store.NewBlockStore(dbm.NewMemDB())
 	return p
@@ -327,6 +328,8 @@ func classify(s string) string {
 		return "panic-hash-block"
 	case strings.Contains(s, "state.AppHash does not match"):
 		return "panic-hash-state"
+	case strings.Contains(s, "not persisting abci responses"):
+		return "err-resp-not-persisted"
 	case strings.Contains(s, "last stored abci responses") || strings.Contains(s, "no last ABCI response"):
 		return "err-no-resp"
 	case strings.Contains(s, "wrong Block.Header") || strings.Contains(s, "invalid block"):
